@@ -72,6 +72,14 @@ CHECKS = {
   text="Registry agreement (qiskit name -> gate class against a frozen name table, classes themselves verified for every angle by the C13 folding), post-selected classes confined to the post-selection tables selected only under `post_selection`, ALLOWED_GATES = union of registries, unsupported gates refused before dispatch (CFG dominance), dispatch chains total (end in raise), three-qubit refusals dominate construction, swap conjugation symmetric. Placement/plumbing idioms are recognised, and if rewritten the check answers ANALYSIS-ERROR rather than a verdict. Unitary equivalence of the converted circuit - in particular the post-selection analysis - is NOT decided.",
   note="Trusted: qiskit gate names/conventions; C13 for the meaning of gate classes.",
   tech=TECH + "table agreement, constant/polynomial folding, CFG guard dominance, dispatch totality", ref="DESIGN.md §3 R-K, R-H4, R-D; §4 C12"),
+ "C15": dict(
+  text="Constant folding of the module-level gate sequences in tomography/mappings.py (model c.add(g) = g.c, decided under C01) proves U_P . P . U_P^dagger = Z for the X, Y, Z measurement circuits and that I is measured like Z; the eigenvalue multipliers equal the diagonal of PAULI[Z]; structural rules decide the I->Z reuse map and lookup, one circuit per required setting built as base.copy() + add(op_i, 2i), immutability of the base circuit (effect analysis) and the Kronecker order / normalisation of the Pauli expansion. Reconstruction arithmetic on data and fidelity are not claimed.",
+  note="Trusted: gate classes mean their textbook matrices (decided in C13); dual-rail convention |0> = photon in first mode.",
+  tech=TECH + "constant folding of closed gate sequences (matrix identities over folded literals), structural / effect rules", ref="DESIGN.md §3 R-K, R-C1; §4 C15"),
+ "C16": dict(
+  text="Constant folding proves that the preparation table prepares the density matrices the estimators assume (C e e^dagger C^dagger = RHO[s]), that RHO[P+-] = (I +- P)/2, that the linear-inversion inputs are informationally complete and the input lists agree; role typing of tensor factors decides whether reference Choi matrix and estimators use one factor order - they do not (known finding F9, listed); experiment circuits are preparation / process / measurement on fresh circuits and the base circuit is never mutated. Conjugation conventions for complex gates, MLE convergence / CPTP projection and the gate-fidelity formula are NOT decided.",
+  note="Trusted: numpy flatten row-major, kron major index = first factor; C13 for gate meanings. F9 is suppressed only for the listed construct.",
+  tech=TECH + "constant folding of tables, determinant of folded vectorisations, role typing of Kronecker factors", ref="DESIGN.md §3 R-K, K-order; §4 C16"),
 }
 NA = {}
 
